@@ -519,7 +519,7 @@ class Run:
                 if not ok:
                     RUN = None
                     self.stuck(f'writers neither finished nor killed: pending={sorted(self.pending.items())} '
-                               f'active={self.active} finished={sorted(self.finished)}')
+                               f'active={self.active} finished={sorted(self.finished)} ptr={self.ptr} of {len(self.path)}')
         finally:
             RUN = None
 
